@@ -102,7 +102,8 @@ def run(ctx):
             r.check(bool(good) and ok, "run_handler/recursion#%d/failure-propagates" % k_, c.loc(), "the interrupted handler is stepped again, or reported complete, only after the nested run is known to have succeeded",
                     "the result of the nested run_handler can be ignored on the way to %s (%s): after a triggered handler fails the interrupted handlers carry on" % ("the next step or a successful return", [rh.blocks[q]["t"].get("line") for q in (wit or [])][:10]))
             for e in bad:
-                reach = rh.reachable_from([e])
+                # (what is reachable when the failure value decides the `?` and matches it meets on the way out - e.g. in a caller of a helper)
+                reach = rh.reachable_cp([e])
                 r.check(stepb not in reach and not (reach & ok_ret) and bool(reach & set(rh.exits())), "run_handler/recursion#%d/error-edge-returns" % k_, c.loc(), "the error edge returns the error: no further step, no successful return")
         for k_, c in enumerate(sorted(adds, key=lambda x: x.line)):
             g = dom_guards(rh, c.block)
